@@ -97,12 +97,12 @@ def rows(prop, engines=('map', 'set')):
 
 
 HIST_RULE = ('Iterators are consumed by plain next() loops and, in dedicated adaptor steps, through nth / skip / step_by / last / fold / count / for_each / take / by_ref. Cases are monitored steps of random operation histories (8..96 steps, workload profiles uniform / fill / '
-             'churn-at-full / drain-down / revisit) started from an empty container, for capacities N in {0,1,2,3,4,8} '
+             'churn-at-full / drain-down / revisit) started from an empty container, for capacities N in {0,1,2,3,4,8} and, for the Copy family, 40 and 70 (beyond the 32- and 64-slot marks) '
              '(thorough adds 5,16,32) and the element families named in each job; after every step a full observation sweep '
              'compares the real container with the reference model. A case is non-trivial when the pre-state is non-empty or '
              'the operation mutates.')
 
-ALLCAPS = '0,1,2,3,4,5,8,16,32'
+ALLCAPS = '0,1,2,3,4,5,8,16,32,40,70'
 
 
 def _c01(tier):
@@ -233,6 +233,8 @@ def _c04(tier):
         J('C04', 'rel/exhaustive', 'rel', 'eng_panic', '--fam track --space 0,1,2,3,4', 8, 1, exh=True),
         J('C04', 'rel/random-big', 'rel', 'eng_panic', '--fam track --space 0 --big %d' % q(tier, 60_000, 3_000_000), 8, 1),
         J('C04', 'dbg/heap', 'dbg', 'eng_panic', '--fam heap --space 0,1,2,3', 4, 1),
+        # 640-byte pairs: code paths that depend on the size of the element type
+        J('C04', 'rel/large', 'rel', 'eng_panic', '--fam large --space 0,1,2 --big %d' % q(tier, 4000, 200000), 4, 1),
     ]
     if tier == 'quick':
         jobs.append(J('C04', 'miri/N<=2', 'miri', 'eng_panic', '--fam track --space 0,1,2 --stride 3', 16, 1, light=True))
@@ -358,7 +360,7 @@ def _c14(tier):
 
 plan('C14', jobs=_c14,
      rule='A case is one ordered pair (a, b) of containers, compared as a == b and b == a, and as a != b and b != a. Map states: ALL ordered arrangements of all subsets of a 4-class universe with 2 possible values per class (633 states when the capacity is >= 4); set states: all 65 layouts. Every ordered pair of states is compared for the capacity pairs (4,4) (4,8) (8,4) (2,4) (4,3) (0,4) (4,0) (0,0) (1,1) (2,2) (3,3) for maps and (4,4) (4,8) (8,4) (2,4) (0,3) (1,1) (2,2) (3,3) for sets, with tracked and Copy elements; so pairs differing only in one value, only in one key, only in length, and equal contents in different slot orders all occur by construction (counted per kind in coverage_matrix). Random pairs reached by two different operation histories on top. Non-trivial: at least one operand non-empty.',
-     required=['zst:equal', 'zst:unequal', 'equal:same-order', 'equal:different-order', 'unequal:one-value', 'unequal:one-key', 'unequal:length', 'unequal:values', 'unequal:keys',
+     required=['zst:equal', 'zst:unequal', 'zst-values', 'equal:same-order', 'equal:different-order', 'unequal:one-value', 'unequal:one-key', 'unequal:length', 'unequal:values', 'unequal:keys',
                'set:equal:different-order', 'set:unequal:one-key', 'set:unequal:length', 'histories:equal', 'histories:unequal'],
      exhaustive_subspace='all ordered pairs of (slot order x values) states over a 4-class universe with 2 values per class, for the listed capacity pairs, Map and Set',
      title='extensional equality',
@@ -435,11 +437,11 @@ def _c03(tier):
 
 
 plan('C03', jobs=_c03,
-     rule='A case is one call of one safe insertion entry point on one FULL container (or one overflowing collect). Full states are reached through random fill/remove/refill histories, so full maps occur in many slot layouts; per state every entry point (insert, insert_key_value, checked_insert, entry.or_insert / or_insert_with / or_insert_with_key / or_default / and_modify.or_insert, VacantEntry::insert | OccupiedEntry::insert, Set::insert, Set::replace, Set::extend with one and with two items) is called once with an absent key and once with a present key; Map/Set collect are fed more than N distinct keys with repeats sprinkled in; with_capacity(c) for c = N and c != N. Capacities N in {0,1,2,3,4,8,16}, element families track (ledger), copy, raw (String/Box), heap (faultable heap-owning), large (128/512-byte), zst (zero-sized key and value). Distinct by (family, N, slot order, seed history); every case is non-trivial.',
+     rule='A case is one call of one safe insertion entry point on one FULL container (or one overflowing collect). Full states are reached through random fill/remove/refill histories, so full maps occur in many slot layouts; per state every entry point (insert, insert_key_value, checked_insert, entry.or_insert / or_insert_with / or_insert_with_key / or_default / and_modify.or_insert, VacantEntry::insert | OccupiedEntry::insert, Set::insert, Set::replace, Set::extend with one and with two items) is called once with an absent key and once with a present key; Map/Set collect are fed more than N distinct keys with repeats sprinkled in (must panic) and more than N items with at most N distinct keys (must succeed); with_capacity(c) for c = N and c != N. Capacities N in {0,1,2,3,4,8,16}, element families track (ledger), copy, raw (String/Box), heap (faultable heap-owning), large (128/512-byte), zst (zero-sized key and value). Distinct by (family, N, slot order, seed history); every case is non-trivial.',
      required=['insert:absent:N=0', 'insert:absent:N=4', 'insert:absent:N=8+', 'insert:present:N=4', 'insert_key_value:absent:N=1', 'checked_insert:absent:N=2', 'checked_insert:present:N=3',
                'entry.or_insert:absent', 'entry.or_insert_with:absent', 'entry.or_insert_with_key:absent', 'entry.or_default:absent', 'VacantEntry::insert|OccupiedEntry::insert:absent',
                'VacantEntry::insert|OccupiedEntry::insert:present', 'Set::insert:absent:N=0', 'Set::insert:absent:N=4', 'Set::replace:absent', 'Set::replace:present', 'Set::extend(one):absent',
-               'Set::extend(two):absent', 'Map::from_iter(overflow):N=0', 'Map::from_iter(overflow):N=3', 'Set::from_iter(overflow):N=1', 'zst:absent:N=0', 'zst:absent:N=16', 'zst:present', 'with_capacity'],
+               'Set::extend(two):absent', 'Map::from_iter(overflow):N=0', 'Map::from_iter(overflow):N=3', 'Set::from_iter(overflow):N=1', 'Map::from_iter(repeats beyond N):N=2', 'Set::from_iter(repeats beyond N):N=4', 'zst:absent:N=0', 'zst:absent:N=16', 'zst:present', 'with_capacity'],
      assumptions=NATIVE_ASSUME + SAN_ASSUME + ['canary words (128 bytes before and after the container, inside one poisoned heap frame) reveal writes next to the container; writes further away are the sanitizers\' business'],
      title='full container rejects a new key',
      technique='runtime monitoring: must-panic oracle per entry point in debug, release and Miri with and without debug assertions; canary frame around the container; identity fingerprint before/after; ledger for the rejected arguments; exact-size heap placement under AddressSanitizer and valgrind',
@@ -525,7 +527,7 @@ def _c06(tier):
 plan('C06', jobs=_c06,
      rule='A case is one allocation window: one public operation executed between two reads of a counting global allocator (alloc, alloc_zeroed, realloc, dealloc), with nothing else in between. 56 window kinds cover construction (new, default, From<[_;N]>, collect), every Map operation (insert*, lookups, indexing, removals, retain, clear, drain, all borrowing and consuming iterators, the entry API, get_disjoint_mut, clone, ==, Debug/Display of the map and of its iterators into a fixed-buffer sink, drop) and every Set operation (incl. all set-algebra iterators walked with size_hint/count, predicates, `-`, extend by value and by reference), in random histories over element types that cannot allocate (u32, 128-byte array key, 512-byte array value, zero-sized), capacities 0..64 incl. containers larger than a page (8, 10 and 16 KiB), with micromap built with default features AND with the std feature. Operations expected to panic are never put in a window. In addition every reference handed out is range-checked against the container value. Distinct by (history fingerprint); every window is non-trivial.',
      required=['Map::new', 'Map::default', 'Map::from(array)', 'Map::from_iter(array)', 'insert', 'insert_key_value', 'checked_insert', 'get', 'get_mut', 'get_key_value', 'contains_key', 'index',
-               'index_mut', 'remove', 'remove_entry', 'retain', 'clear', 'drain', 'iter', 'iter_mut', 'keys', 'values', 'values_mut', 'into_iter', 'into_keys', 'into_values', 'entry.or_insert',
+               'index_mut', 'remove', 'remove_entry', 'retain', 'clear', 'drain', 'iter', 'iter_mut', 'keys', 'values', 'values_mut', 'into_iter', 'into_keys', 'into_values', 'entry.or_insert', 'fmt(flags)', 'Set::fmt(flags)',
                'entry.or_insert_with', 'entry.and_modify.or_default', 'entry.occupied|vacant', 'get_disjoint_mut', 'clone', 'eq', 'fmt', 'drop(map)', 'Set::new', 'Set::from(array)', 'Set::insert',
                'Set::replace', 'Set::contains', 'Set::get', 'Set::remove', 'Set::take', 'Set::retain', 'Set::clear', 'Set::drain', 'Set::extend', 'Set::iter', 'Set::into_iter', 'Set::union',
                'Set::intersection', 'Set::difference', 'Set::symmetric_difference', 'Set::predicates', 'Set::sub', 'Set::clone+eq', 'Set::fmt', 'zst'],
